@@ -9,8 +9,8 @@ use rand::{Rng, SeedableRng};
 
 use crate::model::*;
 
-const RCHK: [&str; 4] = ["eq", "ex", "par", "any"];
-const OCHK: [&str; 5] = ["eq", "okeq", "erreq", "res", "any"];
+const RCHK: [&str; 5] = ["eq", "ex", "par", "any", "near"];
+const OCHK: [&str; 6] = ["eq", "okeq", "erreq", "res", "any", "near"];
 
 #[derive(Clone, Default, PartialEq, Eq, PartialOrd, Ord)]
 struct Ctx {
@@ -20,6 +20,8 @@ struct Ctx {
 }
 
 pub struct GenCfg {
+  /// fixed dimensions (tasks, resources, len) and probes in creation order only: batches for conformance checking
+  pub fixed: Option<(usize, usize, usize)>,
   pub family: String,
   pub max_t: usize,
   pub max_r: usize,
@@ -58,6 +60,11 @@ fn oobs(c: &str, nv: i64) -> Vec<i64> {
 }
 
 impl<'a> G<'a> {
+  /// value function of a return/write: mostly dependent on what the task observed, so that changes propagate
+  fn rand_f(&mut self, allow_absent: bool) -> i64 {
+    if allow_absent && self.rng.gen_bool(0.1) { return -1; }
+    if self.rng.gen_bool(0.7) { self.nv + self.rng.gen_range(0..2) } else { self.rng.gen_range(0..self.nv) }
+  }
   fn permitted(&self, t: i64, op: &Op, ctx: &Ctx) -> bool {
     match op.k.as_str() {
       "ret" => true,
@@ -87,7 +94,7 @@ impl<'a> G<'a> {
   }
 
   fn random_op(&mut self, t: i64, pc: usize, ctx: &Ctx) -> Op {
-    if pc >= self.len { return Op::ret(self.rng.gen_range(0..self.nv + 2)); }
+    if pc >= self.len { let f = self.rand_f(false); return Op::ret(f); }
     for _ in 0..12 {
       let roll = self.rng.gen_range(0..100);
       let op = if roll < 38 {
@@ -100,6 +107,11 @@ impl<'a> G<'a> {
       } else if roll < 68 {
         let u = if !ctx.required.is_empty() && self.rng.gen_bool(0.15) {
           *ctx.required.keys().collect::<Vec<_>>().choose(self.rng).unwrap().clone()
+        } else if self.rng.gen_bool(0.45) {
+          // hubs: the last task ids are required by many tasks (shared sub-tasks, diamonds)
+          self.rng.gen_range((self.nt as i64 - 1).max(1)..=self.nt as i64)
+        } else if !self.free && (t as usize) < self.nt {
+          self.rng.gen_range(t + 1..=self.nt as i64)
         } else { self.rng.gen_range(1..=self.nt as i64) };
         let c = if let (true, Some(c)) = (self.one_chk, ctx.required.get(&u)) { c.clone() } else { self.ochk.choose(self.rng).unwrap().to_string() };
         Op::rq(u, &c)
@@ -110,14 +122,14 @@ impl<'a> G<'a> {
         // a generated resource is written with an exact checker: a coarse checker cannot notice (and so cannot
         // repair) every external change to the written content, which would put the program outside C01's domain
         let c = if self.rchk.contains(&"eqF") && self.rng.gen_bool(0.5) { "eqF".to_string() } else { "eq".to_string() };
-        let f = self.rng.gen_range(-1..self.nv + 2);
+        let f = self.rand_f(true);
         if self.rng.gen_bool(0.75) { Op::wr(r, &c, f) } else { Op::wt(r, &c, f) }
       } else {
-        Op::ret(self.rng.gen_range(0..self.nv + 2))
+        let f = self.rand_f(false); Op::ret(f)
       };
       if self.permitted(t, &op, ctx) { return op; }
     }
-    Op::ret(self.rng.gen_range(0..self.nv + 2))
+    let f = self.rand_f(false); Op::ret(f)
   }
 
   /// Explores all paths of task t's table, filling undefined entries and returning the first entry that is not
@@ -162,7 +174,7 @@ impl<'a> G<'a> {
     loop {
       match self.explore(t, &mut table) {
         None => break,
-        Some((pc, acc)) => { table[pc][acc] = Some(Op::ret(self.rng.gen_range(0..self.nv + 2))); }
+        Some((pc, acc)) => { let f = self.rand_f(false); table[pc][acc] = Some(Op::ret(f)); }
       }
     }
     table.into_iter().map(|row| row.into_iter().map(|o| o.unwrap_or_else(|| Op::ret(0))).collect()).collect()
@@ -175,7 +187,7 @@ pub fn generate(seed: u64, index: usize, cfg: &GenCfg) -> Scenario {
   let fam = cfg.family.as_str();
   let nv = 4i64;
   let na = 4i64;
-  let len = rng.gen_range(2..=cfg.max_len);
+  let len = match cfg.fixed { Some((_, _, l)) => l, None => rng.gen_range(2..=cfg.max_len) };
   let ident = fam == "IDENT";
   // identities
   let (ttype, tnum, rtype, rnum): (Vec<u8>, Vec<u32>, Vec<u8>, Vec<u32>) = if ident {
@@ -187,17 +199,17 @@ pub fn generate(seed: u64, index: usize, cfg: &GenCfg) -> Scenario {
       kinds.shuffle(&mut rng);
       let take = rng.gen_range(2..=4);
       let mut ks: Vec<u8> = kinds.into_iter().take(take).collect();
-      if ks.iter().any(|k| *k >= 2) && !ks.contains(&0) { ks.push(0); }
+      if ks.iter().any(|k| (2..=4).contains(k)) && !ks.contains(&0) { ks.push(0); }
       ks.sort_by_key(|k| match k { 1 => 9, 0 => 5, _ => 1 }); // wrappers first, then TA, then TB
       for k in ks { tt.push(k); tn.push(g as u32); }
     }
+    if rng.gen_bool(0.6) { tt.push(5); tn.push(0); if rng.gen_bool(0.7) { tt.push(6); tn.push(0); } }
     let nr = rng.gen_range(2..=cfg.max_r.max(2));
     let mut rt = Vec::new(); let mut rn = Vec::new();
     for i in 0..nr { rt.push((i % 2) as u8); rn.push((i / 2 + 1) as u32); }
     (tt, tn, rt, rn)
   } else {
-    let nt = rng.gen_range(2..=cfg.max_t);
-    let nr = rng.gen_range(2..=cfg.max_r);
+    let (nt, nr) = match cfg.fixed { Some((t, r, _)) => (t, r), None => (rng.gen_range(2..=cfg.max_t), rng.gen_range(2..=cfg.max_r)) };
     ((0..nt).map(|_| 0).collect(), (1..=nt as u32).collect(), (0..nr).map(|_| 0).collect(), (1..=nr as u32).collect())
   };
   let nt = ttype.len();
@@ -209,7 +221,7 @@ pub fn generate(seed: u64, index: usize, cfg: &GenCfg) -> Scenario {
   let mut base_of: Vec<usize> = (0..nt).collect();
   if ident {
     for i in 0..nt {
-      if ttype[i] >= 2 {
+      if (2..=4).contains(&ttype[i]) {
         let b = (0..nt).find(|&j| ttype[j] == 0 && tnum[j] == tnum[i]).unwrap();
         base_of[i] = b;
         nowrite.insert((i + 1) as i64); nowrite.insert((b + 1) as i64);
@@ -234,16 +246,40 @@ pub fn generate(seed: u64, index: usize, cfg: &GenCfg) -> Scenario {
   }
   let exact = rng.gen_bool(0.4);
   let mut rchk: Vec<&'static str> = if exact { vec!["eq"] } else {
-    let mut v: Vec<&'static str> = RCHK.to_vec(); v.shuffle(&mut rng); v.truncate(rng.gen_range(2..=4)); v
+    let mut v: Vec<&'static str> = RCHK.to_vec(); v.shuffle(&mut rng); v.truncate(rng.gen_range(2..=5)); v
   };
   if fam == "FAULT" { rchk = vec!["eqF", "eqF", "eq"]; if !exact { rchk.push("par"); } }
   let ochk: Vec<&'static str> = if exact { vec!["eq"] } else {
-    let mut v: Vec<&'static str> = OCHK.to_vec(); v.shuffle(&mut rng); v.truncate(rng.gen_range(2..=5)); v
+    let mut v: Vec<&'static str> = OCHK.to_vec(); v.shuffle(&mut rng); v.truncate(rng.gen_range(2..=6)); v
   };
   let mut g = G { rng: &mut rng, nt, nr, nv, na, len, writer: writer.clone(), rchk, ochk, nowrite, min_req, free,
                   one_chk: fam != "TWOCHK" };
   let mut prog: Vec<Vec<Vec<Op>>> = Vec::new();
-  for t in 1..=nt as i64 { let row = g.gen_task(t); prog.push(row); }
+  let flip = free && g.rng.gen_bool(0.6);
+  for t in 1..=nt as i64 {
+    if flip {
+      // role-changing task: it reads the mode resource 1 first and plays a different role (writer / reader / requirer /
+      // nothing) for each mode value
+      let mut rows: Vec<Vec<Op>> = vec![vec![Op::rd(1, "eq"); na as usize]];
+      let mut row1: Vec<Op> = (0..na).map(|_| Op::ret(g.rng.gen_range(0..nv + 2))).collect();
+      for v in -1..nv {
+        let acc = mix(0, v, na) as usize;
+        let r = if nr >= 2 { g.rng.gen_range(2..=nr as i64) } else { 1 };
+        let u = { let mut u = g.rng.gen_range(1..=nt as i64); if u == t { u = if t == nt as i64 { 1 } else { t + 1 }; } u };
+        row1[acc] = match g.rng.gen_range(0..10) {
+          0..=2 if nr >= 2 => Op::wr(r, "eq", g.rng.gen_range(0..nv)),
+          3..=5 if nr >= 2 => Op::rd(r, "eq"),
+          6..=8 if nt >= 2 => Op::rq(u, "eq"),
+          _ => Op::ret(g.rng.gen_range(0..nv + 2)),
+        };
+      }
+      rows.push(row1);
+      for _ in 2..=len { rows.push((0..na).map(|_| Op::ret(g.rng.gen_range(0..nv + 2))).collect()); }
+      prog.push(rows);
+    } else {
+      let row = g.gen_task(t); prog.push(row);
+    }
+  }
   if ident {
     for i in 0..nt { if base_of[i] != i { prog[base_of[i]] = prog[i].clone(); } }
     for i in 0..nt { if base_of[i] != i { prog[i] = prog[base_of[i]].clone(); } }
@@ -253,7 +289,8 @@ pub fn generate(seed: u64, index: usize, cfg: &GenCfg) -> Scenario {
   // injected violation
   if fam == "INJ" {
     let t = rng.gen_range(1..=nt as i64);
-    let pc = rng.gen_range(0..len);
+    // half of the injections sit in the first row, which every execution of the task reaches
+    let pc = if rng.gen_bool(0.5) { 0 } else { rng.gen_range(0..len) };
     let kind = rng.gen_range(0..3);
     let op = match kind {
       0 => { // hidden read: a generated resource without requiring its writer (or any resource)
@@ -281,16 +318,17 @@ pub fn generate(seed: u64, index: usize, cfg: &GenCfg) -> Scenario {
   // history
   let mut hist: Vec<Step> = Vec::new();
   let pick_roots = |rng: &mut StdRng| -> Vec<i64> {
-    let k = rng.gen_range(1..=3.min(nt));
+    // partial builds: mostly one or two roots, taken from anywhere in the static order
+    let k = match rng.gen_range(0..10) { 0..=4 => 1, 5..=8 => 2.min(nt), _ => 3.min(nt) };
     let mut v: Vec<i64> = Vec::new();
     for _ in 0..k {
-      let t = if rng.gen_bool(0.6) { rng.gen_range(1..=((nt + 1) / 2) as i64) } else { rng.gen_range(1..=nt as i64) };
+      let t = if rng.gen_bool(0.35) { rng.gen_range(1..=((nt + 1) / 2) as i64) } else { rng.gen_range(1..=nt as i64) };
       v.push(t);
     }
     v
   };
   let mixed = rng.gen_bool(0.35) || matches!(fam, "ROLE" | "INJ" | "ABORT");
-  let first_roots = if ident { (1..=nt as i64).collect::<Vec<_>>() } else { pick_roots(&mut rng) };
+  let first_roots = if ident || rng.gen_bool(0.5) { (1..=nt as i64).collect::<Vec<_>>() } else { pick_roots(&mut rng) };
   hist.push(Step::Session { acts: first_roots.iter().map(|t| Act::Req { t: *t }).collect() });
   let mut dirty: BTreeSet<i64> = BTreeSet::new();
   let mut last_roots = first_roots.clone();
@@ -298,9 +336,9 @@ pub fn generate(seed: u64, index: usize, cfg: &GenCfg) -> Scenario {
   let mut boom_armed = false;
   for _ in 0..steps {
     // environment changes
-    let nchg = match rng.gen_range(0..10) { 0 => 0, 1..=6 => 1, _ => 2 };
+    let nchg = match rng.gen_range(0..10) { 0 => 0, 1..=5 => 1, 6..=8 => 2, _ => 3 };
     for _ in 0..nchg {
-      let r = rng.gen_range(1..=nr as i64);
+      let r = if flip && rng.gen_bool(0.7) { 1 } else { rng.gen_range(1..=nr as i64) };
       let v = rng.gen_range(-1..nv);
       hist.push(Step::Set { r, v });
       dirty.insert(r);
@@ -317,7 +355,7 @@ pub fn generate(seed: u64, index: usize, cfg: &GenCfg) -> Scenario {
       }
     }
     let roll = rng.gen_range(0..100);
-    if roll < 45 && fam != "ROLE" {
+    if roll < 45 && (fam != "ROLE" || rng.gen_bool(0.4)) {
       // bottom-up build reporting every change since the last one (plus sometimes unchanged resources)
       let mut changed: Vec<i64> = dirty.iter().copied().collect();
       if rng.gen_bool(0.3) { changed.push(rng.gen_range(1..=nr as i64)); }
@@ -347,6 +385,9 @@ pub fn generate(seed: u64, index: usize, cfg: &GenCfg) -> Scenario {
     let roots = pick_roots(&mut rng);
     hist.push(Step::Session { acts: roots.iter().map(|t| Act::Req { t: *t }).collect() });
     hist.push(Step::Probe { rev: false });
+  }
+  if cfg.fixed.is_some() {
+    for st in hist.iter_mut() { if let Step::Probe { rev } = st { *rev = false; } }
   }
   Scenario {
     id: format!("{}-{}-{}", fam.to_lowercase(), seed, index),
